@@ -71,16 +71,18 @@ PROPS.update({
         "assumptions": COMMON_ASSUME,
     },
     "C04": {
+        "technique": "bounded-exhaustive enumeration of inputs and configurations against a reference model, plus stateless controlled-scheduler exploration of the items of the data-parallel batch path",
         "needs": ["harness", "cli", "py"],
-        "parts": [ktmc("C04"), lambda tier: __import__("hist").c04_cli(tier)],
+        "parts": [ktmc("C04"), ktmc("C04batch"), lambda tier: __import__("hist").c04_cli(tier)],
         "rule": "per-record routine on every string over {A,C,G,T,N} up to the stated length x k 1..=4, mixed-case/U "
                 "strings x k 1..=3 and structured inputs for k 5..=8, raw and normalised, each with its reverse "
                 "complement / lower-case / U-for-T variant; the file API on all short strings as one FASTA through "
                 "the mmap writer (3 and 16 threads), the batch writer (default and 7-base limit) and counts mode; the release binary (k 3..=5, default and -c, 1 "
                 "and 16 threads) and the Python binding (k 1..=3) on every string up to length 4 (thorough 5). "
                 "Oracle: integer counts per canonical rank and exact ratio c/t within 5e-7. Non-trivial = record "
-                "with at least one window position.",
-        "assumptions": COMMON_ASSUME + ["rayon's schedule inside par_iter().collect() of the batch writer is not controlled (trusted ordered collect)"],
+                "with at least one window position."
+                " Batch path under the controlled scheduler: every order in which the items of a batch of 2 or 3 records run (4 records: up to the stated preemption bound), one batch and several batches, each item being a task whose shim lock / atomic operations are scheduling points; oracle per schedule: the bytes of the one-thread run.",
+        "assumptions": COMMON_ASSUME + ["batches with more items than pool threads run free (which items start first is then rayon's choice); tasks that do not announce themselves (a bare scope.spawn) are not scheduled"],
     },
     "C06": {
         "parts": [ktmc("C06")],
@@ -93,32 +95,38 @@ PROPS.update({
         "assumptions": COMMON_ASSUME + ["gzip members are produced by flate2 (compressed level 6 and stored level 0)"],
     },
     "C08": {
-        "parts": [ktmc("C08")],
+        "technique": "bounded-exhaustive enumeration of inputs and configurations against a reference model, plus stateless controlled-scheduler exploration of the items of the data-parallel batch path",
+        "parts": [ktmc("C08"), ktmc("C08batch")],
         "rule": "per-record histogram routine on every string over {A,C,G,T,N} up to the stated length x k 1..=3 x 6 "
                 "bin shapes with synthetic tables (multiplicities at the bin edges, 10^6, u32::MAX, absent); the "
                 "whole pipeline on every list of <= 2 (thorough 3) short records x k x bin shapes x norm/raw x "
                 "(threads, memory) settings with the same or a different counting input; high-multiplicity and "
                 "200-record inputs; compute_coverages on harness-written tables. Oracle: model histogram, one row "
-                "per record in order. Non-trivial = record with at least one window position.",
+                "per record in order. Non-trivial = record with at least one window position."
+                " Batch path under the controlled scheduler: every order in which the items of a batch of 2 or 3 records run (4 records: up to the stated preemption bound), one batch and several batches, each item being a task whose shim lock / atomic operations are scheduling points; oracle per schedule: the bytes of the one-thread run.",
         "assumptions": COMMON_ASSUME + ["worker threads of the counting step run free in this check (their interleavings are decided in C07)",
                                         "'flush every few records' cannot be reached: the batch threshold is a whole number of GiB"],
     },
     "C11": {
-        "parts": [ktmc("C11")],
+        "technique": "bounded-exhaustive enumeration of inputs and configurations against a reference model, plus stateless controlled-scheduler exploration of the items of the data-parallel batch path",
+        "parts": [ktmc("C11"), ktmc("C11batch")],
         "rule": "every string over {A,C,G,T} up to the stated length and every mixed-case/U string up to length 5-6 x "
                 "7 square sizes, bit-exact against an exact dyadic-rational model; every string with a bad byte over "
                 "{A,C,G,T,N,x} and every byte value outside the ten letters in short contexts must be refused; long "
                 "periodic inputs for prefix determinism and sub-square containment; the file path on 7 record sets "
-                "x threads 1..=16 x 3 batch limits. Non-trivial = non-empty input.",
-        "assumptions": COMMON_ASSUME + ["rayon's schedule inside the batch par_iter is not controlled (trusted ordered collect)"],
+                "x threads 1..=16 x 3 batch limits. Non-trivial = non-empty input."
+                " Batch path under the controlled scheduler: every order in which the items of a batch of 2 or 3 records run (4 records: up to the stated preemption bound), one batch and several batches, each item being a task whose shim lock / atomic operations are scheduling points; oracle per schedule: the bytes of the one-thread run.",
+        "assumptions": COMMON_ASSUME + ["batches with more items than pool threads run free (which items start first is then rayon's choice); tasks that do not announce themselves (a bare scope.spawn) are not scheduled"],
     },
     "C12": {
-        "parts": [ktmc("C12")],
+        "technique": "bounded-exhaustive enumeration of inputs and configurations against a reference model, plus stateless controlled-scheduler exploration of the items of the data-parallel batch path",
+        "parts": [ktmc("C12"), ktmc("C12batch")],
         "rule": "k 1..=7 x 5 square sizes x norm/raw: every string over {A,C,G,T,N} up to the stated length (k<=3) or "
                 "a structured family (k 4..=7): one triple per canonical column in rank order, coordinates bit-exact "
                 "= chaos-game end point of the column's k-mer text, frequency identical to the oligo vector and to "
-                "the model; file path x threads x batch limits. Non-trivial = record at least k long.",
-        "assumptions": COMMON_ASSUME + ["rayon's schedule inside the batch par_iter is not controlled (trusted ordered collect)"],
+                "the model; file path x threads x batch limits. Non-trivial = record at least k long."
+                " Batch path under the controlled scheduler: every order in which the items of a batch of 2 or 3 records run (4 records: up to the stated preemption bound), one batch and several batches, each item being a task whose shim lock / atomic operations are scheduling points; oracle per schedule: the bytes of the one-thread run.",
+        "assumptions": COMMON_ASSUME + ["batches with more items than pool threads run free (which items start first is then rayon's choice); tasks that do not announce themselves (a bare scope.spawn) are not scheduled"],
     },
 })
 
@@ -157,7 +165,7 @@ PROPS.update({
     "C05": {
         "engine": "ktmc-sched",
         "technique": "stateless controlled-scheduler exploration of worker interleavings (iterative preemption bounding) plus exhaustive configuration lattice",
-        "parts": [ktmc("C05sched"), ktmc("C05cfg")],
+        "parts": [ktmc("C05sched"), ktmc("C05cfg"), ktmc("C04batch")],
         "rule": "schedules: depth-first exploration by re-execution of every interleaving of the real mmap worker loop "
                 "(N=2 and the small N=3 case unbounded, larger N=3 and N=4 up to the stated preemption bound) over 2-6 "
                 "records with pairwise different rows, at the default and at small batch-memory limits; oracle per schedule: output bytes = rows in input order; observed record->worker assignments "
@@ -167,7 +175,7 @@ PROPS.update({
                 "states = branching decision points + terminal states, transitions = scheduling steps executed, "
                 "traces = complete schedules executed on the real code. Every schedule/configuration is distinct.",
         "states": SCHED_STATES,
-        "assumptions": SCHED_ASSUME + ["the batch writer's par_iter().collect() is covered by configurations only (rayon's ordered collect is trusted; its internal schedule is not controlled)"],
+        "assumptions": SCHED_ASSUME + ["batches with more items than pool threads run free (which items start first is then rayon's choice); tasks that do not announce themselves (a bare scope.spawn) are not scheduled"],
     },
     "C14": {
         "engine": "ktmc-sched",
